@@ -15,20 +15,35 @@ Proof. exact accessor_types. Qed.
 
 (* An accessor can only panic in its generated type assertion ToNode(child).(Category): on a returned child
    whose type the category does not list, or -- absent child -- on NilNode when NilNode does not implement the
-   category (the template leaves that method out for a category called TokenSet). Accessors that wrap the
+   category (the template leaves that method out for the synthetic TokenSet category). Accessors that wrap the
    child in a struct or assert the base interface never panic. *)
 Theorem C21_accessor_panics_only_in_assertion : forall cats fs i kids f,
   nth_error fs i = Some f -> accessor cats fs i kids = RPanic ->
   (exists t, assert_ok cats (f_assert f) t = false) /\ (0 < f_assert f)%Z.
 Proof. exact accessor_panics_only_in_assertion. Qed.
 
-(* "never panics" is refuted for the faithful model: an optional field whose selector is a user category that
-   is called TokenSet, on a node without that child (witness replayed on the implementation: known finding
-   nilnode-not-in-tokenset). *)
-Theorem C21_never_panics_refuted :
+(* "never panics" needs the NilNode clause: in the accessor model an optional field asserting a category that
+   NilNode does not implement panics on a node without that child. This was reachable in the pinned
+   implementation (the template left the NilNode method out for every category CALLED TokenSet, also a
+   user-declared one: fixed, known_findings "fixed: property=C21 fcc27f1"); since the fix only the synthetic
+   TokenSet category lacks the method, and no field can name it. *)
+Theorem C21_never_panics_needs_nilnode :
   exists cats fs kids, accessor cats fs 0 kids = RPanic.
 Proof.
   exists [mkCat [2%N] false], [mkF [2%N] (-1) false false 1], []. vm_compute. reflexivity.
+Qed.
+
+(* never-panics: a field whose asserted category exists, lists every node type of the field's expanded
+   selector and is implemented by NilNode (assert_covers: what go_ast.go.tmpl guarantees for every declared
+   category after the fix) has an accessor that never panics, on ANY child sequence. *)
+Theorem C21_accessor_never_panics : forall cats fs i kids f,
+  nth_error fs i = Some f -> assert_covers cats f -> accessor cats fs i kids <> RPanic.
+Proof. exact accessor_never_panics. Qed.
+
+Example C21_assert_covers_satisfiable :
+  assert_covers [mkCat [1%N; 2%N] true] (mkF [1%N; 2%N] (-1) false false 1).
+Proof.
+  intros _. exists (mkCat [1%N; 2%N] true). repeat split. intros t H. exact H.
 Qed.
 
 (* required_present + children_covered + never-panics + accessor_types, w.r.t. the child sequences an arrow
@@ -72,6 +87,7 @@ Qed.
 
 Print Assumptions C21_accessor_types.
 Print Assumptions C21_accessor_panics_only_in_assertion.
-Print Assumptions C21_never_panics_refuted.
+Print Assumptions C21_never_panics_needs_nilnode.
+Print Assumptions C21_accessor_never_panics.
 Print Assumptions C21_validated_fields_fit_all_trees_partial.
 Print Assumptions C21_node_ok_meaning.
